@@ -29,6 +29,10 @@ def subsets(sizes):
 
 
 def make_server(sub, style, offer, banner):
+    if sub and sub[0] == 'splitmix':  # ... and answered in different styles
+        gex = {SHA1: P.GexPolicy(list(sub[1]), sub[3]), SHA256: P.GexPolicy(list(sub[2]), sub[4])}
+        return P.Server(kex=OFFERS[offer] + ['sntrup761x25519-sha512@openssh.com'], key=['ssh-ed25519'], host_keys=P.standard_host_keys(['ssh-ed25519']),
+                        gex=gex, banner=ALL_BANNERS[banner])
     if sub and sub[0] == 'split':     # the two group-exchange algorithms are served from different moduli files
         gex = {SHA1: P.GexPolicy(list(sub[1]), style), SHA256: P.GexPolicy(list(sub[2]), style)}
         return P.Server(kex=OFFERS[offer] + ['sntrup761x25519-sha512@openssh.com'], key=['ssh-ed25519'], host_keys=P.standard_host_keys(['ssh-ed25519']),
@@ -59,6 +63,98 @@ def expected_from_log(srv, alg, banner):
     return smallest, False
 
 
+def model_requests(gexp, banner):
+    """the fixed probe sequence for one algorithm, played against the server's moduli policy: (512, 1024, 1536), then min = pref = max at
+    512, 768, ... 4096 until a size at or above the smallest group seen so far; an OpenSSH server left at 2048 gets (2048, 3072, 4096)"""
+    reqs = [(512, 1024, 1536)]
+    r = gexp.choose(512, 1024, 1536) if gexp else None
+    smallest = r if r else -1
+    for bits in (512, 768, 1024, 1536, 2048, 3072, 4096):
+        if bits >= smallest > 0:
+            break
+        reqs.append((bits, bits, bits))
+        r = gexp.choose(bits, bits, bits) if gexp else None
+        if r and (smallest <= 0 or r < smallest):
+            smallest = r
+    if smallest == 2048 and banner in ('openssh', 'openssh-windows', 'openssh-bare'):
+        reqs.append((2048, 3072, 4096))
+    return reqs
+
+
+def model_run(gexp, banner, bad=()):
+    """as model_requests, with the requests whose index is in `bad` answered by a degenerate group (no size for that probe); -> (requests, size)"""
+    reqs = []
+
+    def ask(mn, pref, mx):
+        i = len(reqs)
+        reqs.append((mn, pref, mx))
+        r = gexp.choose(mn, pref, mx) if gexp else None
+        return None if (i in bad or not r) else r
+    r = ask(512, 1024, 1536)
+    smallest = r if r else -1
+    for bits in (512, 768, 1024, 1536, 2048, 3072, 4096):
+        if bits >= smallest > 0:
+            break
+        r = ask(bits, bits, bits)
+        if r and (smallest <= 0 or r < smallest):
+            smallest = r
+    if smallest == 2048 and banner in ('openssh', 'openssh-windows', 'openssh-bare'):
+        r = ask(2048, 3072, 4096)
+        smallest = r if r else -1
+    return reqs, (smallest if smallest > 0 else None)
+
+
+def work_degenerate(chunk, st):
+    """one probe of one algorithm answered with a degenerate group (p = 0, 1 or 5): that probe yields no size, every other probe of the
+    fixed sequence is still made on a fresh connection and counted"""
+    for sub, style, banner, alg, k, p in chunk:
+        srv = make_server(sub, style, 'both', banner)
+        good = srv._gex_prime
+        count = {}
+
+        def prime(bits, srv=srv):
+            # called once per answered GEX request; the connection's negotiated algorithm tells the sequences apart
+            a = srv.records[-1].get('negotiated', (None,))[0] if srv.records else None
+            last = srv.records[-1]['gex_requests'][-1] if srv.records and srv.records[-1]['gex_requests'] else None
+            if last is not None and tuple(last[:3]) == (1024, 2048, 8192):
+                return good(bits)
+            i = count.get(a, 0)
+            count[a] = i + 1
+            return p if (a == alg and i == k) else good(bits)
+        srv._gex_prime = prime
+        res = H.audit(srv)
+        root = ('degenerate-probe', sub, style, banner, alg, k, p)
+        st.execution(res.world, outcome=('degenerate-probe', res.status), root=root, nontrivial=root)
+        d = {'moduli': list(sub), 'style': style, 'banner': banner, 'alg': alg, 'degenerate_answer_to_request': k, 'p': p, 'status': res.status}
+        if res.status not in (0, 2, 3) or res.hang or res.exc:
+            st.violation('degenerate-probe:audit-failed', dict(d, hang=res.hang, stdout=res.stdout[-200:]))
+            continue
+        rep = report.TextReport(res.stdout)
+        for a in OFFERS['both']:
+            seen = [tuple(q[:3]) for r in srv.records if r.get('negotiated', (None,))[0] == a for q in r['gex_requests'] if tuple(q[:3]) != (1024, 2048, 8192)]
+            # answered requests only count towards the index, so replay the model with the same rule
+            answered = [i for i, q in enumerate(seen)]
+            bad = ()
+            if a == alg:
+                # index k among the ANSWERED requests of this algorithm
+                idx, n = None, -1
+                for i, q in enumerate(seen):
+                    if srv.gex.choose(*q) is not None:
+                        n += 1
+                        if n == k:
+                            idx = i
+                            break
+                bad = (idx,) if idx is not None else ()
+            want_reqs, want = model_run(srv.gex, banner, bad)
+            entry = next((x for x in rep.algs['kex'] if x['name'] == a), None)
+            got = entry['size'] if entry else None
+            if seen != want_reqs:
+                st.violation('degenerate-probe:probe-sequence-differs', dict(d, sequence_of=a, requests=seen, fixed_sequence=want_reqs))
+            elif got != want:
+                st.violation('degenerate-probe:size-differs', dict(d, sequence_of=a, reported=got, expected=want))
+    st.sample({'degenerate_probe': [list(chunk[0][0]), chunk[0][1], chunk[0][3], chunk[0][4]]}, cap=4)
+
+
 def rating(bits):
     return 'fail' if bits < 2048 else 'warn' if bits < 3072 else None
 
@@ -69,6 +165,12 @@ def judge(res, srv, offer, banner, st, detail, fam='gex'):
         return
     rep = report.TextReport(res.stdout)
     for alg in OFFERS[offer]:
+        if fam == 'gex':
+            gexp = srv.gex.get(alg) if isinstance(srv.gex, dict) else srv.gex
+            seen = [tuple(q[:3]) for r in srv.records if r.get('negotiated', (None,))[0] == alg for q in r['gex_requests'] if tuple(q[:3]) != (1024, 2048, 8192)]
+            want_reqs = model_requests(gexp, banner)
+            if seen != want_reqs:
+                st.violation('gex:probe-sequence-differs:%s' % ('probe-skipped' if len(seen) < len(want_reqs) else 'extra-or-other-probe'), dict(detail, alg=alg, requests=seen, fixed_sequence=want_reqs))
         want, fallback = expected_from_log(srv, alg, banner)
         entry = next((a for a in rep.algs['kex'] if a['name'] == alg), None)
         if entry is None:
@@ -263,8 +365,10 @@ def run(tier, seed):
     tasks = [(sub, style, offer, banner) for sub in subsets(sizes) for style in STYLES
              for offer in OFFERS for banner in BANNERS]
     tasks += [(sub, style, offer, banner) for sub in subsets([2048, 3072, 4096]) for style in STYLES for offer in OFFERS for banner in ODD_BANNERS]
-    split = [(1024,), (2048,), (3072,), (4096,), (2048, 4096), (1536, 3072)]
+    split = [(1024,), (2048,), (3072,), (4096,), (2048, 4096), (1536, 3072), (768, 1536), (512, 2048), (1024, 1536, 4096)]
     tasks += [(('split', a, b), style, 'both', banner) for a in split for b in split if a != b for style in STYLES for banner in BANNERS]
+    mix = [(768, 1536), (1024, 4096), (4096,), (512, 2048)]
+    tasks += [(('splitmix', a, b, sa, sb), sa, offer, banner) for a in mix for b in mix for sa in STYLES for sb in STYLES if sa != sb for offer in ('both', 'both-sha1-first') if offer in OFFERS for banner in BANNERS]
     # moduli whose size is not one of the customary ones, on both sides of every threshold of the statement (a server is free to hand out
     # any size; the lenient and round-up styles do so whatever range was requested)
     odd = [(n,) for n in (1023, 1025, 2040, 2047, 2049, 2056, 3064, 3071, 3073, 3080, 4095, 4097, 8191)] + [(2047, 4096), (2049, 3071), (3071, 3073), (2047, 2048, 2049)]
@@ -280,6 +384,10 @@ def run(tier, seed):
     if tier != 'quick':
         hist += [(k, 'json') for k in itertools.permutations(range(n), 3)]
     par.pmap(work_history, hist, stats=st, chunk=3)
+    deg = [(sub, style, banner, alg, k, p) for sub, style, banner in (((512, 2048), P.STRICT, 'other'), ((1024, 4096), P.STRICT, 'other'), ((512, 3072), P.OPENSSH, 'openssh'),
+                                                                    ((2048,), P.OPENSSH, 'openssh'), ((1536, 4096), P.ROUNDUP, 'other'))
+           for alg in (SHA256, SHA1) for k in range(0, 6) for p in (1, 5)]
+    par.pmap(work_degenerate, deg, stats=st, chunk=2)
     par.pmap(work_history_crashed, [(k, f) for k in itertools.permutations(range(n), 2) for f in ('text', 'json')], stats=st, chunk=2)
     vcases = []
     for sub, style, offer, banner in H.pick(tasks, seed, 16 if tier == 'quick' else 80):
@@ -295,7 +403,7 @@ def run(tier, seed):
              '{OpenSSH, other}, text and JSON; plus every message-level fault (close, stall, reset, garbage, wrong lengths/type, debug, duplicate, '
              'refuse, timeout) at every probe connection of three representative servers%s' % (
                  sizes, 2 ** len(sizes), ('; plus the size sets %s (moduli above every requested range)' % (LARGE_SETS,) if tier == 'quick' else '') +
-                 '; plus servers handing the two algorithms different moduli (30 ordered pairs of size sets); plus 17 size sets next to every threshold (1023..8191, not multiples of 8 included) under all four styles'),
+                 '; plus servers handing the two algorithms different moduli (72 ordered pairs of size sets); plus 17 size sets next to every threshold (1023..8191, not multiples of 8 included) under all four styles'),
         assumptions=['expected size is read from the scripted server\'s own log of GEX requests and groups handed out',
                      'OpenSSH selection style modelled after dh.c choose_dh()'],
         exhaustive=True, traces_validated=validated, extra={'servers': len(tasks)})
